@@ -215,7 +215,7 @@ Definition ri (t : term) : tres term :=
   let t := set_last t false in
   if t_row t <? 0 then TOk t
   else if t_row t =? t_top t then scroll_down t 1
-  else TOk (set_row t (t_row t - 1)).
+  else TOk (if t_row t >? 0 then set_row t (t_row t - 1) else t).
 
 Definition save_of (t : term) : saved :=
   mkSaved (t_row t) (t_col t) (t_pen t) (t_shape t) (m_awm (t_md t)) (m_om (t_md t))
@@ -227,6 +227,8 @@ Definition decsc (t : term) : term :=
 Definition decrc (t : term) : term :=
   let s := if m_smcup (t_md t) then t_sva t else t_svp t in
   let t := set_cursor t (s_row s) (s_col s) in
+  let t := if t_row t >? height t - 1 then set_row t (height t - 1) else t in
+  let t := if t_col t >? width t - 1 then set_col t (width t - 1) else t in
   let t := set_pen t (s_pen s) in
   let t := set_shape t (s_shape s) in
   let t := set_cs t (mkChars (cs_des (s_cs s)) (cs_sel (s_cs s)) (cs_saved (s_cs s)) false) in
@@ -308,13 +310,13 @@ Definition shift_grapheme (c : chars) (g : text) : text :=
   | _ => g
   end.
 
-(* for i := margin.right; i > col; i-- { line[i] = line[i-w] }  (w >= 0: reads are of
+(* for i := margin.right; i >= col+w; i-- { line[i] = line[i-w] }  (w >= 0: reads are of
    cells not yet written) *)
 Definition irm_shift (line : trow) (col right w : Z) : option trow :=
-  if (col <? right) && ((col + 1 <? 0) || (zlen line <=? right)) then None
-  else mapi_opt (fun i c => if (col <? i) && (i <=? right) then zget line (i - w) else Some c) 0 line.
+  if (col + w <=? right) && ((col + w <? 0) || (zlen line <=? right)) then None
+  else mapi_opt (fun i c => if (col + w <=? i) && (i <=? right) then zget line (i - w) else Some c) 0 line.
 
-Definition set_space (p : style) (c : tcell) : tcell := mkCell [32] (c_w c) p (c_wr c).
+Definition set_space (p : style) (c : tcell) : tcell := mkCell [32] 1 p (c_wr c).
 Definition set_wrapped (c : tcell) : tcell := mkCell (c_g c) (c_w c) (c_st c) true.
 
 Definition print (t : term) (g0 : text) (w : Z) : tres term :=
@@ -339,7 +341,8 @@ Definition print (t : term) (g0 : text) (w : Z) : tres term :=
   t <- range_in_row t rw (set_space (t_pen t)) (col + 1) (Z.min (col + w) (t_right t + 1)) ;;
   let t := if negb (m_awm (t_md t)) && (t_col t + w >? t_right t) then t
            else set_col t (t_col t + w) in
-  TOk (if (t_col t >=? t_right t + 1) && m_awm (t_md t) then set_last t true else t).
+  TOk (if (t_col t >=? t_right t + 1) && m_awm (t_md t)
+       then set_col (set_last t true) (t_right t) else t).
 
 (* ------------------------------------------------------------------ c0.go *)
 
@@ -349,7 +352,7 @@ Definition post_event (t : term) : tres term :=
 Definition bs (t : term) : term :=
   let t := set_last t false in
   if t_col t =? t_left t then
-    if t_row t =? t_top t then t
+    if (t_row t =? t_top t) || (t_row t =? 0) then t
     else set_cursor t (t_row t - 1) (t_right t)
   else set_col t (t_col t - 1).
 
@@ -365,7 +368,8 @@ Definition dflt1 (ps : Z) : Z := if ps =? 0 then 1 else ps.
 
 Definition cht (t : term) (ps : Z) : term :=
   let t := set_last t false in
-  set_col t (cht_loop (t_tabs t) 0 (dflt1 ps) (t_col t)).
+  let c := cht_loop (t_tabs t) 0 (dflt1 ps) (t_col t) in
+  set_col t (if c >? t_right t then t_right t else c).
 
 Definition lf (t : term) : tres term :=
   t <- ind t ;;
@@ -386,13 +390,15 @@ Definition c0 (t : term) (r : Z) : tres term :=
 (* ------------------------------------------------------------------ csi.go *)
 
 (* ps(params): params[0][0] or 0 *)
+Definition clamp_ps (v : Z) : Z := if (v <? 0) || (v >? 65535) then 65535 else v.
+
 Definition ps_of (params : list (list Z)) : tres Z :=
   match params with
   | [] => TOk 0
-  | p :: _ => of_opt (zget p 0)
+  | p :: _ => v <- of_opt (zget p 0) ;; TOk (clamp_ps v)
   end.
 
-Definition blank_cell : tcell := mkCell [32] 1 style0 false.
+Definition blank_cell (bgc : Z) : tcell := mkCell [32] 1 (mkStyle (mkPen 0 bgc 0 0 0) [] []) false.
 
 (* ich: shift right (decreasing i, reads of cells not yet written), then blanks *)
 Definition ich (t : term) (ps0 : Z) : tres term :=
@@ -403,8 +409,8 @@ Definition ich (t : term) (ps0 : Z) : tres term :=
          if (col <? right) && (ps <=? right) && (zlen line <=? right) then None
          else mapi_opt (fun i c => if (col <? i) && (i <=? right) && (0 <=? i - ps)
                                    then zget line (i - ps) else Some c) 0 line) ;;
-  (* for i := 0; i < ps; i++ { if col+i >= width-1 { break }; line[col+i] = blank } *)
-  on_row t (t_row t) (upd_range (fun _ => blank_cell) col (Z.min (col + ps) (width t - 1))).
+  (* for i := 0; i < ps; i++ { if col+i > width-1 { break }; line[col+i] = blank } *)
+  on_row t (t_row t) (upd_range (fun _ => blank_cell (pen_bg t)) col (Z.min (col + ps) (width t))).
 
 Definition cuu (t : term) (ps0 : Z) : term :=
   let t := set_last t false in
@@ -415,7 +421,8 @@ Definition cuu (t : term) (ps0 : Z) : term :=
 Definition cud (t : term) (ps0 : Z) : term :=
   let t := set_last t false in
   let ps := dflt1 ps0 in
-  set_row t (Z.min (t_row t + ps) (t_bot t)).
+  let clamp := if t_row t <=? t_bot t then t_bot t else height t - 1 in
+  set_row t (Z.min (t_row t + ps) clamp).
 
 Definition cuf (t : term) (ps0 : Z) : term :=
   let t := set_last t false in
@@ -425,18 +432,11 @@ Definition cub (t : term) (ps0 : Z) : term :=
   let t := set_last t false in
   set_col t (Z.max (t_col t - dflt1 ps0) (t_left t)).
 
-Fixpoint iter_res (n : nat) (f : term -> tres term) (t : term) : tres term :=
-  match n with
-  | O => TOk t
-  | S k => t' <- f t ;; iter_res k f t'
-  end.
+Definition cnl (t : term) (ps0 : Z) : term :=
+  let t := cud t ps0 in set_col t (t_left t).
 
-Definition cnl (t : term) (ps0 : Z) : tres term :=
-  iter_res (Z.to_nat (dflt1 ps0)) nel (set_last t false).
-
-Definition cpl (t : term) (ps0 : Z) : tres term :=
-  t <- iter_res (Z.to_nat (dflt1 ps0)) ri (set_last t false) ;;
-  TOk (set_col t (t_left t)).
+Definition cpl (t : term) (ps0 : Z) : term :=
+  let t := cuu t ps0 in set_col t (t_left t).
 
 Definition cha (t : term) (ps0 : Z) : term :=
   let t := set_last t false in
@@ -457,7 +457,9 @@ Definition cup (t : term) (pm : list (list Z)) : tres term :=
                                   TOk (set_cursor t (i64 (r - 1)) (i64 (c - 1)))
         else TOk t) ;;
   let t := if t_col t >? width t - 1 then set_col t (width t - 1) else t in
-  TOk (if t_row t >? height t - 1 then set_row t (height t - 1) else t).
+  let t := if t_row t >? height t - 1 then set_row t (height t - 1) else t in
+  let t := if t_col t <? 0 then set_col t 0 else t in
+  TOk (if t_row t <? 0 then set_row t 0 else t).
 
 Definition ed (t : term) (ps : Z) : tres term :=
   let g := active t in
@@ -505,7 +507,7 @@ Definition il (t : term) (ps0 : Z) : tres term :=
   let t := set_last t false in
   if negb (in_margins t) then TOk t else
   let ps := dflt1 ps0 in
-  let ps := if t_bot t - t_row t <? ps - 1 then t_bot t - t_row t else ps in
+  let ps := if t_bot t - t_row t <? ps - 1 then t_bot t - t_row t + 1 else ps in
   let g := active t in
   let row := t_row t in
   if (row + ps <=? t_bot t) && ((row + ps <? 0) || (zlen g <=? t_bot t)) then TPanic else
@@ -525,7 +527,7 @@ Definition dl (t : term) (ps0 : Z) : tres term :=
   let t := set_last t false in
   if negb (in_margins t) then TOk t else
   let ps := dflt1 ps0 in
-  let ps := if t_bot t - t_row t <? ps - 1 then t_bot t - t_row t else ps in
+  let ps := if t_bot t - t_row t <? ps - 1 then t_bot t - t_row t + 1 else ps in
   let g := active t in
   let row := t_row t in
   if (row <? 0) || (zlen g <=? t_bot t) then TPanic else
@@ -608,6 +610,8 @@ Definition decstbm (t : term) (pm : list (list Z)) : tres term :=
          else if zlen pm =? 2 then a <- pm_at pm 0 ;; b <- pm_at pm 1 ;; TOk (i64 (a - 1), i64 (b - 1))
          else TOk (0, 0)) ;;
   let '(top, bot) := tb in
+  let top := if top <? 0 then 0 else top in
+  let bot := if (bot <? 0) || (bot >? h - 1) then h - 1 else bot in
   if top >=? bot then TOk t else
   let t := set_last t false in
   let t := set_margins t top bot (t_left t) (t_right t) in
@@ -633,6 +637,7 @@ Definition decset1 (t : term) (k : Z) : tres term :=
   else if k =? 1049 then
     let t := decsc t in
     let t := set_onalt t true in
+    t <- (if m_smcup (t_md t) then TOk t else ed t 2) ;;
     TOk (set_md t (md_smcup (t_md t) true))
   else TOk t.
 
@@ -693,8 +698,8 @@ Definition csi (t : term) (inter : list Z) (params : list (list Z)) (final : Z) 
   else if key_is k [66] then with_ps params (fun ps => TOk (cud t ps))
   else if key_is k [67] then with_ps params (fun ps => TOk (cuf t ps))
   else if key_is k [68] then with_ps params (fun ps => TOk (cub t ps))
-  else if key_is k [69] then with_ps params (cnl t)
-  else if key_is k [70] then with_ps params (cpl t)
+  else if key_is k [69] then with_ps params (fun ps => TOk (cnl t ps))
+  else if key_is k [70] then with_ps params (fun ps => TOk (cpl t ps))
   else if key_is k [71] then with_ps params (fun ps => TOk (cha t ps))  (* G *)
   else if key_is k [72] then cup t params                               (* H *)
   else if key_is k [73] then with_ps params (fun ps => TOk (cht t ps))  (* I *)
@@ -783,7 +788,7 @@ Definition resize (t : term) (w h : Z) : tres term :=
   g <- make_grid w h ;;
   let last := t_row t in
   let t := set_grids t g g false in
-  let t := set_margins t (t_top t) (h - 1) (t_left t) (w - 1) in
+  let t := set_margins t 0 (h - 1) (t_left t) (w - 1) in
   let t := set_cursor t 0 0 in
   let t := set_last t false in
   let n0 := match old with [] => 0 | l :: _ => zlen l end in
